@@ -25,6 +25,7 @@ def now(m):
 r1 = [m for m in metas if m["seed"][-1] in "AB"]
 r2 = [m for m in metas if m["seed"][-1] in "CD"]
 r3 = [m for m in metas if m["seed"][-1] in "EF"]
+r4 = [m for m in metas if m["seed"][-1] in "GH"]
 out = []
 out.append("""# Independently seeded property-breaking changes
 
@@ -36,8 +37,8 @@ demonstration (`demo_test.go.txt`; rename and place as its header says),
 check against that copy; `tools/seedconfirm.sh` re-confirms build / suite /
 demo in the author's scratch worktree; `tools/seedsweep.sh` re-runs them all.
 
-Round 1 (`-A`, `-B`): two changes per property.  Round 2 (`-C`, `-D`) and round 3
-(`-E`, `-F`): two more per property each, by new agents that were told in one line
+Round 1 (`-A`, `-B`): two changes per property.  Rounds 2, 3 and 4 (`-C`/`-D`,
+`-E`/`-F`, `-G`/`-H`): two more per property each, by new agents that were told in one line
 each what the earlier changes were, so that they would pick other mechanisms and
 code sites.
 """)
@@ -48,6 +49,9 @@ out.append("Round 2: caught at the first attempt %d of %d; caught now %d of %d."
 if r3:
     out.append("Round 3: caught at the first attempt %d of %d; caught now %d of %d." % (
         sum(1 for m in r3 if first(m)), len(r3), sum(1 for m in r3 if now(m)), len(r3)))
+if r4:
+    out.append("Round 4: caught at the first attempt %d of %d; caught now %d of %d." % (
+        sum(1 for m in r4 if first(m)), len(r4), sum(1 for m in r4 if now(m)), len(r4)))
 out.append("""
 (C12-B only on the pre-fix tree: a later repair rewrote the same condition.)
 The seeding agents also pointed at defects that already existed in /repo: the
